@@ -2,6 +2,7 @@
 From Coq Require Import Bool ZArith List.
 From K Require Import Lib.Types Model.Machine Model.Alu Model.Exec Spec.ISA Proofs.FlagProofs Proofs.AluProofs.
 From K Require Import Model.Bus Model.Cost Model.Addressing Proofs.RegProofs Proofs.StepProofs.
+From K Require Import Model.Cost Model.Addressing Model.Exec Proofs.MemProofs Proofs.StepProofs Proofs.CtlProofs Proofs.StepRefines.
 Open Scope Z_scope.
 
 Theorem logic2_kernel :
@@ -71,9 +72,36 @@ Theorem shift_refines :
     Ok n (let '(r, c) := alu1_ref o (bits_of z) (reg z s rd) (ccr s) in with_ccr c (set_reg z s rd r)).
 Proof. intros o z op s n _. apply alu1_refines. Qed.
 
+(* ---- from the instruction word in memory to the reference semantics, in one statement ----
+   s is ANY machine state whose PC is even and whose instruction word w can be fetched; w1..w4 are whatever follows it.
+   If the operation-code map decodes w as the two-byte instruction i, then one step of the model (fetch, dispatch, handler,
+   charge of one instruction-fetch cycle at the instruction's address) ends in exactly the state the reference semantics
+   sem_ref assigns (plus the bookkeeping field operating_pc). *)
+Theorem step_logic_register :
+  forall s w w1 w2 w3 w4 o z rs rd n,
+    cpu_ok s -> bus_bytes_ok s -> fault s = false -> pc s mod 2 = 0 -> 0 <= pc s -> pc s + 2 < 4294967296 ->
+    mem_read SW s (pc s) = Some w ->
+    decode_ref w w1 w2 w3 w4 = Some (IAlu2R o z rs rd, 2) ->
+    cs KI 1 (post_fetch s) = Ok n (post_fetch s) ->
+    exists s', sem_ref (IAlu2R o z rs rd) 2 s = Some s' /\ step s = Ok n (set_opc (pc s) s').
+Proof. exact step_alu2_rr_proof. Qed.
+
+(* NOT, EXTU and the eight shifts / rotates (SHAL outside its recorded known class) *)
+Theorem step_shift_register :
+  forall s w w1 w2 w3 w4 o z rd n,
+    cpu_ok s -> bus_bytes_ok s -> fault s = false -> pc s mod 2 = 0 -> 0 <= pc s -> pc s + 2 < 4294967296 ->
+    mem_read SW s (pc s) = Some w ->
+    decode_ref w w1 w2 w3 w4 = Some (IAlu1 o z rd, 2) ->
+    (o = UShal -> shal_known (bits_of z) (reg z s rd) = false) ->
+    cs KI 1 (post_fetch s) = Ok n (post_fetch s) ->
+    exists s', sem_ref (IAlu1 o z rd) 2 s = Some s' /\ step s = Ok n (set_opc (pc s) s').
+Proof. exact step_alu1_proof. Qed.
+
 Print Assumptions logic2_kernel.
 Print Assumptions logic1_kernel.
 Print Assumptions shal_all_but_v.
 Print Assumptions shal_v_refuted.
 Print Assumptions logic_rr_refines.
 Print Assumptions shift_refines.
+Print Assumptions step_logic_register.
+Print Assumptions step_shift_register.
